@@ -52,7 +52,7 @@ type ContractSet struct {
 	Files      []string
 }
 
-var clauseKw = regexp.MustCompile(`^(func|iface|requires|ensures|modifies|loop|invariant|decreases|unroll|trusted|props|safety|noinline|global-invariant|lemma|typeinv|end)\b`)
+var clauseKw = regexp.MustCompile(`^(func|iface|callback|requires|ensures|modifies|loop|invariant|decreases|unroll|trusted|props|safety|noinline|global-invariant|lemma|typeinv|end)\b`)
 
 // LoadContracts reads //@ comment blocks from the given files.
 func LoadContracts(files ...string) (*ContractSet, error) {
@@ -121,9 +121,12 @@ func (cs *ContractSet) loadFile(path string) error {
 	}
 	for _, r := range raws {
 		switch r.kw {
-		case "func", "iface":
+		case "func", "iface", "callback":
 			key := strings.TrimSpace(r.text)
-			cur = &Contract{Key: key, Iface: r.kw == "iface", Loops: map[int]*LoopSpec{}, Line: r.line}
+			if r.kw == "callback" {
+				key = "callback " + key
+			}
+			cur = &Contract{Key: key, Iface: r.kw != "func", Loops: map[int]*LoopSpec{}, Line: r.line}
 			if _, dup := cs.Funcs[key]; dup {
 				return fmt.Errorf("%s:%d: duplicate contract for %s", path, r.line, key)
 			}
